@@ -104,7 +104,10 @@ ObsViol(out, c) ==
        \cup (IF HasFields(c)
              THEN {[clause |-> "field_name", subj |-> x.s.fields[i].name, exp |-> "snake_case of the member name", got |-> x.s.fields[i].name] :
                      i \in {i \in 1..Len(x.s.fields) :
+                              \* (members that share a local name - an own member named like an inherited one of
+                              \* another namespace - are disambiguated by the generator: no exact name is prescribed)
                               \E m \in 1..Len(ExpOf(c)) : ExpOf(c)[m].xml = ObsFields(out, x)[i].xml
+                                 /\ Cardinality({k \in 1..Len(ExpOf(c)) : ExpOf(c)[k].xml = ExpOf(c)[m].xml}) = 1
                                  /\ \E nid \in DOMAIN Voc.names : Voc.names[nid].xml = ExpOf(c)[m].xml
                                                                  /\ "snake" \in DOMAIN Voc.names[nid]
                                                                  /\ Voc.names[nid].snake # x.s.fields[i].name}}
